@@ -342,6 +342,11 @@ impl C11 {
             ("offset", "read-builtin-variable"),
             ("4 seek", "write-builtin-variable"),
             ("|FF| emit", "emit"),
+            ("258 u16!", "pack-in-session-byte-order"),
+            ("1.5 f64!", "pack-float-in-session-byte-order"),
+            ("|01 02| open-bitstr", "open-bitstr"),
+            ("remain", "remain"),
+            ("big", "change-byte-order"),
         ]);
         let wrapper = rng.below(3);
         let src = match wrapper {
